@@ -370,7 +370,7 @@ def gen_slice(rng, sps, pps, nal_type=None, ref_idc=None, slice_type=None):
     h["sp_for_switch"] = rng.random() < 0.5
     lo, hi = -(26 + pps["pic_init_qs_minus26"]), 51 - (26 + pps["pic_init_qs_minus26"])
     h["slice_qs_delta"] = pick(rng, [lo, hi, 0 if lo <= 0 <= hi else lo, rng.randrange(lo, hi + 1)])
-    h["disable_deblocking"] = pick(rng, [0, 1, 2])
+    h["disable_deblocking"] = pick(rng, [0, 1, 2, 0, 1, 2, 3, 5, 6])   # the crate accepts 0..6 (the standard 0..2): both ends
     h["alpha"], h["beta"] = se_val(rng, -6, 6), se_val(rng, -6, 6)
     return h
 
